@@ -350,27 +350,39 @@ def selectors_and_rest(rep: Report, prog: Program) -> None:
 
     # ---- awaitables are awaited
     rep.rule("R16.6", "async twin: every awaitable returned by a sleeper / before_sleep hook is awaited (isawaitable true-edge -> await of that very value); no repository coroutine is created and dropped")
-    for fn, cat in (("_call_async_sleeper", "sleeper"), ("_call_before_sleep_async", "before_sleep")):
-        fi = prog.func(f"{HELPERS}:{fn}")
-        rep.analysed(fi.qual)
-        n = 0
-        for p in engine(prog).paths(fi):
-            cb = [e for e in p.calls() if e.callback() == cat]
-            if not cb:
-                continue
-            res_ = cb[0].result
-            isaw = [(a, pol) for a, pol, _ in p.conds if a[0] == "pure" and a[1] == "inspect.isawaitable"]
-            aws = [e for e in p.events if e.kind == "await"]
-            n += 1
-            rep.instance("R16.6", f"{fn}|isawaitable={isaw[0][1] if isaw else None}")
-            if not isaw or isaw[0][0][2] != (res_,):
-                rep.fail("R16.6", f"{fn}|not-tested", f"{fn}: the {cat} result is not tested with inspect.isawaitable", where=fi.where(), function=fi.qual, path=p.describe())
-            elif isaw[0][1] and not any(a.recv == res_ for a in aws):
-                rep.fail("R16.6", f"{fn}|not-awaited", f"{fn}: an awaitable {cat} result is not awaited", where=fi.where(), function=fi.qual, path=p.describe())
-            else:
-                rep.ok("R16.6")
+    # decided on the async sleep step as a whole, with the helpers of its module inlined: which helper makes the call
+    # and which one awaits (today _call_async_sleeper / _call_before_sleep_async) is the code's business
+    from ..paths import PathEngine, default_inline
+
+    eng6 = PathEngine(prog, cfgs(prog))
+    base_inline6 = default_inline()
+    eng6.inline = lambda fn: base_inline6(fn) or (fn.module.name == HELPERS and fn.name.startswith("_") and fn.cls is None)
+    root6 = prog.func(f"{HELPERS}:_async_sleep_action")
+    rep.analysed(root6.qual)
+    seen6: dict[str, int] = {"sleeper": 0, "before_sleep": 0}
+    done6: set = set()
+    for p in eng6.paths(root6):
+        aws = [e for e in p.events if e.kind == "await"]
+        for cat in ("sleeper", "before_sleep"):
+            for cbe in [e for e in p.calls() if e.callback() == cat]:
+                res_ = cbe.result
+                isaw = [(a, pol) for a, pol, _ in p.conds if a[0] == "pure" and a[1] == "inspect.isawaitable" and a[2] == (res_,)]
+                key6 = (cat, cbe.node.id, isaw[0][1] if isaw else None)
+                seen6[cat] += 1
+                if key6 in done6:
+                    continue
+                done6.add(key6)
+                fn = cbe.cfg.func.name if getattr(cbe, "cfg", None) is not None else root6.name
+                rep.instance("R16.6", f"{fn}|{cat}|isawaitable={isaw[0][1] if isaw else None}")
+                if not isaw:
+                    rep.fail("R16.6", f"{fn}|not-tested", f"{fn}: the {cat} result is not tested with inspect.isawaitable before the step goes on (a Future / Task / object with __await__ handed back by an async {cat} would be dropped unawaited)", where=cbe.cfg.func.where(cbe.node.ast) if getattr(cbe, "cfg", None) is not None else root6.where(), function=root6.qual, path=p.describe())
+                elif isaw[0][1] and not any(a.recv == res_ for a in aws):
+                    rep.fail("R16.6", f"{fn}|not-awaited", f"{fn}: an awaitable {cat} result is not awaited", where=root6.where(), function=root6.qual, path=p.describe())
+                else:
+                    rep.ok("R16.6")
+    for cat, n in seen6.items():
         if n < 2:
-            raise AnalysisError(f"{fn}: {cat} call not found")
+            raise AnalysisError(f"_async_sleep_action: {cat} call not found on its paths")
     G = cfgs(prog)
     for g in prog.funcs.values():
         if g.module.name.startswith(("redress.testing", "redress.cli", "redress.contrib")):
